@@ -57,4 +57,10 @@ CHECKS = {
         design_ref="DESIGN.md §4 C08",
         note="Model in vf/ref/itext.py restated from the XLSForm docs (default-language rule: suffixed cell wins over unsuffixed). Two genuine defects found here were fixed in /repo.",
     ),
+    "C09": dict(
+        technique="property-based testing against a reference model of secondary instances, itemsets, external instance declarations and the itemsets CSV",
+        text="Random forms with many lists (shared, unused, sparse extra columns, translated, duplicates), every select variant, external sources and external_choices; each list must yield exactly one instance with its items/children in order, each select must read its own list with its own filter/randomize/refs, each external source is declared once with the conventional URI, and itemsets.csv must reproduce the sheet cell for cell.",
+        design_ref="DESIGN.md §4 C09",
+        note="Model in vf/props/c09.py; select-from-repeat is not generated. Three genuine defects found here were fixed in /repo.",
+    ),
 }
